@@ -169,6 +169,9 @@ impl RepositoryEditor {
         // Sign the targets editor if able to with the provided keys
         self.sign_targets_editor(keys).await?;
         let targets = self.signed_targets.clone().context(error::NoTargetsSnafu)?;
+        // Every delegated role must meet the key threshold of the role that delegates to it,
+        // otherwise we would report success for a repository that no client can load.
+        verify_delegated_roles(&targets.signed)?;
         let delegated_targets = targets.signed.signed_delegated_targets();
         let signed_targets = SignedRole::from_signed(targets)?;
 
@@ -755,6 +758,23 @@ impl RepositoryEditor {
             _extra: HashMap::new(),
         }
     }
+}
+
+/// Checks the signatures of every delegated role below `targets` against its delegating role.
+fn verify_delegated_roles(targets: &Targets) -> Result<()> {
+    if let Some(delegations) = &targets.delegations {
+        for role in &delegations.roles {
+            if let Some(role_targets) = &role.targets {
+                delegations
+                    .verify_role(role_targets, &role.name)
+                    .context(error::VerifyRoleMetadataSnafu {
+                        role: role.name.clone(),
+                    })?;
+                verify_delegated_roles(&role_targets.signed)?;
+            }
+        }
+    }
+    Ok(())
 }
 
 fn parse_url(url: &str) -> Result<Url> {
